@@ -23,15 +23,23 @@ type C18Case struct {
 	Blocks [][]byte `json:"blocks"` // 16 bytes each, replayed through crypto/rand.Reader
 	Kinds  []int    `json:"kinds"`  // per block: 0 uuid.NewV4, 1 AuthnRequest, 2 LogoutRequest, 3 LogoutResponse
 	SPs    int      `json:"sps"`
+	Chunk  int      `json:"chunk"` // the substituted reader returns at most this many bytes per Read (0 = unlimited)
 }
 
 type replayReader struct {
-	data []byte
-	off  int
-	over bool
+	data  []byte
+	off   int
+	over  bool
+	chunk int
 }
 
 func (r *replayReader) Read(p []byte) (int, error) {
+	if r.chunk > 0 && len(p) > r.chunk && r.off < len(r.data) {
+		// a short read: perfectly legal for an io.Reader; callers must loop (io.ReadFull / rand.Read do)
+		n := copy(p[:r.chunk], r.data[r.off:])
+		r.off += n
+		return n, nil
+	}
 	n := copy(p, r.data[r.off:])
 	r.off += n
 	if n < len(p) {
@@ -74,7 +82,7 @@ func expectID(b []byte) string {
 
 func genC18(t *rapid.T) C18Case {
 	n := rapid.IntRange(1, 40).Draw(t, "n")
-	c := C18Case{SPs: rapid.IntRange(1, 3).Draw(t, "sps")}
+	c := C18Case{SPs: rapid.IntRange(1, 3).Draw(t, "sps"), Chunk: rapid.SampledFrom([]int{0, 0, 1, 5, 7, 15}).Draw(t, "chunk")}
 	for i := 0; i < n; i++ {
 		var b []byte
 		switch rapid.IntRange(0, 3).Draw(t, "blockKind") {
@@ -92,7 +100,7 @@ func genC18(t *rapid.T) C18Case {
 // checkC18 — source differential: with crypto/rand.Reader replaying known bytes, every ID must be
 // exactly those bytes with only version and variant forced, 16 bytes consumed per ID.
 func checkC18(c C18Case) h.Outcome {
-	o := h.Outcome{NonTrivial: len(c.Blocks) >= 2, Classes: []string{fmt.Sprintf("sps:%d", c.SPs)}}
+	o := h.Outcome{NonTrivial: len(c.Blocks) >= 2, Classes: []string{fmt.Sprintf("sps:%d", c.SPs), fmt.Sprintf("shortReads:%d", c.Chunk)}}
 	var all []byte
 	for _, b := range c.Blocks {
 		all = append(all, b...)
@@ -103,7 +111,7 @@ func checkC18(c C18Case) h.Outcome {
 	}
 	randMu.Lock()
 	old := rand.Reader
-	rr := &replayReader{data: all}
+	rr := &replayReader{data: all, chunk: c.Chunk}
 	rand.Reader = rr
 	var ids []string
 	var errs []error
